@@ -1,6 +1,7 @@
 import MakoModel.Codegen.CallsCor
 import MakoModel.Codegen.AttrsLemmas2
 import MakoModel.Codegen.Deco
+import MakoModel.Codegen.AttrsDefaults
 /-!
 # C05 – defs write at the call site; buffering, capture and calls with content
 
@@ -616,5 +617,67 @@ example :
     let s : PySig := { pos := [⟨"a".toList, some "1".toList⟩], vararg := none, bareStar := true,
                        kwonly := [⟨"c".toList, none⟩], kwarg := some "kw".toList }
     Spec.asCall s = ["a".toList, "c=c".toList, "**kw".toList] := by decide
+
+/-! ## default values: printed back from their syntax trees
+
+`ParseFunc` keeps each default as an AST; `get_argument_expressions` writes `name=ExpressionGenerator(default).value()`.
+`Codegen/AttrsDefaults.lean` composes the signature model with the printer model of `PyExpr/Print.lean` (C19's model of
+`_ast_util.SourceGenerator`, compared with the real class on every run of C19 and, for defaults, of this check:
+stream `corr.sig.defaults`). -/
+
+/-- **signature_defaults_reprinted.**  For every signature whose defaults are expression trees: when the printer
+writes all of them (`s.printed = some p`), `p` has the names of `s` and, for every defaulted parameter, the printed
+tree as its default; and under the guard of `signature_reemitted_partial` the parameter list of the generated `def` is
+Python's syntax for `p` – each default appears as `name=<printed tree>`, nothing of the template's own text.  When the
+printer raises on a default, so does `get_argument_expressions`. -/
+theorem signature_defaults_reprinted (s : ASig) :
+    (∀ p, s.printed = some p →
+      p.pos = s.pos.map (fun a => ⟨a.name, a.default.bind MakoModel.PyExpr.printStr⟩) ∧
+      p.kwonly = s.kwonly.map (fun a => ⟨a.name, a.default.bind MakoModel.PyExpr.printStr⟩) ∧
+      p.vararg = s.vararg ∧ p.bareStar = s.bareStar ∧ p.kwarg = s.kwarg ∧
+      (p.valid = true → (p.kwonly ≠ [] → p.vararg.isSome = true) → s.decl false = some (Spec.decl p)) ∧
+      s.decl true = some (Spec.asCall p)) ∧
+    (s.printed = none → s.decl false = none ∧ s.decl true = none) := by
+  refine ⟨fun p hp => ?_, fun h => by simp [ASig.decl, h]⟩
+  have hp' := hp
+  simp only [ASig.printed] at hp
+  cases h1 : printedParams s.pos with
+  | none => simp [h1] at hp
+  | some pos =>
+    cases h2 : printedParams s.kwonly with
+    | none => simp [h1, h2] at hp
+    | some kwonly =>
+      simp [h1, h2] at hp
+      subst hp
+      refine ⟨printedParams_eq _ _ h1, printedParams_eq _ _ h2, rfl, rfl, rfl, fun hv hk => ?_, ?_⟩
+      · simp only [ASig.decl, hp']; exact signature_reemitted_partial _ hv hk
+      · simp only [ASig.decl, hp']; exact signature_ascall _
+
+/-- **default_tuple_reemitted_as_tuple.**  A default that is (or contains) a tuple is written back as a tuple of the same
+length: `(` items `, `-separated `)`, with the trailing comma exactly when there is one item – `(e,)` never becomes the
+parenthesised expression `(e)`, `()` stays `()`. -/
+theorem default_tuple_reemitted_as_tuple (es : List MakoModel.PyExpr.Expr) (te : List MakoModel.PyExpr.Toks)
+    (h : MakoModel.PyExpr.printList es = some te) :
+    MakoModel.PyExpr.printStr (.tuple es) =
+      some (['('] ++ MakoModel.PyExpr.render (MakoModel.PyExpr.joinWith MakoModel.PyExpr.comma te) ++
+        (if es.length = 1 then [','] else []) ++ [')']) ∧
+    (∀ e, es = [e] → MakoModel.PyExpr.printStr (.tuple es) =
+      (MakoModel.PyExpr.printStr e).map fun t => ['('] ++ t ++ [',', ')']) :=
+  ⟨printStr_tuple es te h, fun e he => by subst he; exact printStr_tuple_one e⟩
+
+/-- non-vacuous: `f(a, x=(1,))`, `f(a, *r, x=[(1,), (2, 3)], **kw)` and `f(a, *, x=())` – the second and third through
+the whole chain tree → printed signature → parameter list; the keyword-only one after a bare `*` shows the recorded
+F-C05-sig-barestar (the `*` is dropped) -/
+example :
+    let one : MakoModel.PyExpr.Expr := .tuple [.const .int "1".toList]
+    let two : MakoModel.PyExpr.Expr := .tuple [.const .int "2".toList, .const .int "3".toList]
+    (ASig.decl ⟨[⟨"a".toList, none⟩, ⟨"x".toList, some one⟩], none, false, [], none⟩ false
+      = some ["a".toList, "x=(1,)".toList]) ∧
+    (ASig.decl ⟨[⟨"a".toList, none⟩], some "r".toList, false, [⟨"x".toList, some (.list [one, two])⟩], some "kw".toList⟩ false
+      = some ["a".toList, "*r".toList, "x=[(1,), (2, 3)]".toList, "**kw".toList]) ∧
+    (ASig.decl ⟨[⟨"a".toList, none⟩], none, true, [⟨"x".toList, some (.tuple [])⟩], none⟩ false
+      = some ["a".toList, "x=()".toList]) ∧
+    (ASig.decl ⟨[⟨"a".toList, none⟩, ⟨"x".toList, some (.binOp one .mult (.const .int "3".toList))⟩], none, false, [], none⟩ false
+      = some ["a".toList, "x=((1,) * 3)".toList]) := by decide +kernel
 
 end MakoModel.C05
